@@ -810,7 +810,7 @@ func shapeTests(fn *ssa.Function) string {
 }
 
 func init() {
-	register("ASG-1", "each fact-write sink receives the variable's own name / selector, the new value, and an up-to-date parent", 4, ruleASG1)
+	register("ASG-1", "each fact-write sink receives the variable's own name / selector, the new value, and an up-to-date parent; no success path around the write", 8, ruleASG1)
 }
 
 // ASG-1 (C04): addressing of the write. In Variable.Assign every sink call must name exactly the addressed location.
@@ -925,6 +925,77 @@ func ruleASG1(c *Ctx) {
 	if n == 0 {
 		c.Fail("Variable.Assign / sink calls", p.Pos(fn.Pos()), "no fact-write sink call found (anchor lost)")
 	}
+	// no success path around the write: every return of a not-definitely-non-nil error is preceded by a sink call
+	sinks := findCalls(fn, sink)
+	t, path := reach(fn, nil, func(in ssa.Instruction) bool {
+		ret, isRet := in.(*ssa.Return)
+		return isRet && !returnsNonNilError(ret) && !returnsCallError(ret)
+	}, func(in ssa.Instruction) bool {
+		for _, s := range sinks {
+			if in == s.(ssa.Instruction) {
+				return true
+			}
+		}
+		return false
+	}, nil)
+	if t != nil {
+		c.Fail("Variable.Assign / every successful return follows a write", p.InstrPos(t), "Assign can report success without having called any fact-write sink (a `nothing to do` shortcut): the assignment is silently skipped on that path", pathString(p, path)...)
+	} else {
+		c.OK("Variable.Assign / every successful return follows a write", p.Pos(fn.Pos()), "all nil-capable returns are preceded by a sink call")
+	}
+	// the Go back end's setters themselves: every success return is preceded by a reflect store (or the shared number table)
+	for _, mn := range []string{"SetObjectValueByField", "SetArrayValueAt", "SetMapValueAt"} {
+		m := p.Method("model", "GoValueNode", mn)
+		if m == nil {
+			c.AnchorLost("(*model.GoValueNode)." + mn)
+			continue
+		}
+		isStore := func(in ssa.Instruction) bool {
+			ci, ok := in.(ssa.CallInstruction)
+			if !ok {
+				return false
+			}
+			name := calleeName(ci)
+			return name == "(reflect.Value).Set" || name == "(reflect.Value).SetMapIndex" || strings.HasSuffix(name, "SetNumberValue") || strings.HasPrefix(name, "(reflect.Value).Set")
+		}
+		t, path := reach(m, nil, func(in ssa.Instruction) bool {
+			ret, isRet := in.(*ssa.Return)
+			if !isRet || ret.Block().Comment == "recover" {
+				return false
+			}
+			return !returnsNonNilError(ret) && !returnsCallError(ret)
+		}, isStore, nil)
+		if t != nil {
+			c.Fail("GoValueNode."+mn+" / every successful return follows a store", p.InstrPos(t), "the setter can report success without storing anything", pathString(p, path)...)
+		} else {
+			c.OK("GoValueNode."+mn+" / every successful return follows a store", p.Pos(m.Pos()), "all nil-capable returns are preceded by a reflect store")
+		}
+	}
+}
+
+// returnsCallError: the return hands back the error result of a call made in the same block (return f(x)).
+func returnsCallError(ret *ssa.Return) bool {
+	if len(ret.Results) == 0 {
+		return false
+	}
+	v := ret.Results[len(ret.Results)-1]
+	if u, ok := v.(*ssa.UnOp); ok && u.Op == token.MUL {
+		if a, ok := u.X.(*ssa.Alloc); ok {
+			for _, in := range ret.Block().Instrs {
+				if st, ok := in.(*ssa.Store); ok && st.Addr == ssa.Value(a) {
+					v = st.Val
+				}
+			}
+		}
+	}
+	switch x := v.(type) {
+	case *ssa.Call:
+		return true
+	case *ssa.Extract:
+		_, ok := x.Tuple.(*ssa.Call)
+		return ok
+	}
+	return false
 }
 
 func isRetNilAtStart(b *ssa.BasicBlock, asg ssa.CallInstruction) bool {
